@@ -98,6 +98,21 @@ Theorem C36_sign_verify : forall d isd asn eku now ks l s,
 Proof. exact verifier_ok_model. Qed.
 Print Assumptions C36_sign_verify.
 
+(** Over the signer's whole lifetime: a message signed at any later time [now']
+    at which signing still succeeds verifies at [now'] with a verifier bound to
+    the signer's ISD-AS (trust store unchanged).  This is what the expiry formula
+    is for.  It needs what cppki.TRC.Validate guarantees for every TRC that can
+    be decoded from the trust DB: each certificate of a TRC covers the TRC's
+    validity ([trcs_cover]). *)
+Theorem C36_sign_verify_lifetime : forall d isd asn eku now ks l s now',
+  isd <> 0 -> asn <> 0 ->
+  (forall t r, In t (d_trcs d) -> In r (t_certs t) -> (c_nb r <= t_nb t /\ t_na t <= c_na r)%Z) ->
+  signer_gen d isd asn eku now ks = Some l -> In s l ->
+  (now <= now')%Z -> sign_ok s now' = true ->
+  verifier_ok d isd asn s isd asn now' = true.
+Proof. exact verifier_ok_later. Qed.
+Print Assumptions C36_sign_verify_lifetime.
+
 (** The oracle evaluated on the implementation's observation holds on the model
     (key handles identify the keys of the ring). *)
 Definition to_isigner (d : db) (isd asn : N) (now : Z) (s : signer) : isigner :=
@@ -162,3 +177,24 @@ Example C36_example :
   /\ (match signer_gen (mkdb [Ex.trc1] [[Ex.asc; Ex.ca]]) 1 273 0 50 [Ex.k] with
       | Some [s] => (s_expiry s, s_grace s) | _ => (0%Z, true) end) = (200%Z, false).
 Proof. vm_compute. repeat split; reflexivity. Qed.
+
+(** The hypothesis of [C36_sign_verify_lifetime] is needed: with a root
+    certificate that ends (100) before the TRC that carries it (400) — a TRC that
+    cppki.TRC.Validate rejects — the signer (expiry 200) still signs at 150 but
+    no verifier accepts the message then. *)
+Module ExCover.
+Definition rootShort := mkc 1 1 1 1 1 3 true true 1 0 false false true false [8] [3] true true 1 false Ex.ia110 Ex.ia110 (-500) 100.
+Definition trc1 := mkt 1 1 1 1 (-400) 400 0 [Ex.sens; Ex.reg; rootShort] 0 0.
+Definition d := mkdb [trc1] [[Ex.asc; Ex.ca]].
+End ExCover.
+Example C36_lifetime_needs_cover :
+  (match signer_gen ExCover.d 1 273 0 50 [Ex.k] with
+   | Some [s] => (s_expiry s, sign_ok s 150, verifier_ok ExCover.d 1 273 s 1 273 50,
+                  verifier_ok ExCover.d 1 273 s 1 273 150)
+   | _ => (0%Z, false, false, false) end) = (200%Z, true, true, false)
+  /\ ~ (forall t r, In t (d_trcs ExCover.d) -> In r (t_certs t) -> (c_nb r <= t_nb t /\ t_na t <= c_na r)%Z).
+Proof.
+  split; [vm_compute; reflexivity|].
+  intros H. specialize (H ExCover.trc1 ExCover.rootShort (or_introl eq_refl)).
+  cbn in H. destruct H as [_ H]; [tauto|]. vm_compute in H. apply H. reflexivity.
+Qed.
